@@ -318,6 +318,7 @@ func (rs *runState) runChild(sub *Sub, race bool, start, end, w int) (next int) 
 		cmd.Args = append(cmd.Args, "replay")
 	}
 	cmd.Env = append(os.Environ(), sub.Env...)
+	cmd.Env = append(cmd.Env, "VH_RACEDIR="+filepath.Join(rs.runDir, "race"))
 	if race {
 		os.MkdirAll(filepath.Join(rs.runDir, "race"), 0o755)
 		cmd.Env = append(cmd.Env, "GORACE=halt_on_error=0 log_path="+filepath.Join(rs.runDir, "race", tag), "VH_RACE=1")
